@@ -245,6 +245,20 @@ def do_replay(pid, path):
     return 0
 
 
+def _default_shards(pid, tier):
+    """4 processes for quick, 16 for thorough, unless the check module declares SHARDS = {...}
+    (read textually so that the master process need not import msdm)."""
+    import re
+    try:
+        src = open(os.path.join(HERE, "checks", pid.lower() + ".py")).read()
+        m = re.search(r"^SHARDS\s*=\s*(\{[^}]*\})", src, re.M)
+        if m:
+            return int(json.loads(m.group(1).replace("'", '"'))[tier])
+    except Exception:
+        pass
+    return 4 if tier == "quick" else 16
+
+
 def main(argv=None):
     ap = argparse.ArgumentParser()
     ap.add_argument("pid")
@@ -266,7 +280,7 @@ def main(argv=None):
     except ValueError:
         seed = 1
     t0 = time.time()
-    nshards = a.shards or int(os.environ.get("VERIF_JOBS", "0")) or (4 if a.tier == "quick" else 16)
+    nshards = a.shards or int(os.environ.get("VERIF_JOBS", "0")) or _default_shards(pid, a.tier)
     prop_filter = [p for p in a.props.split(",") if p]
     work = [(pid, a.tier, seed, i, nshards, prop_filter) for i in range(nshards)]
     if nshards == 1:
